@@ -121,6 +121,7 @@ def task_futures(ctx, f, site_body, call):
 
 def check_config(ctx, f, tag):
     S = cf.Strong(f)
+    check_inflight_strong(ctx, f, tag, S)
     ctx.need([f.adts.get(INNER)] if f.adts.get(INNER) else [], "ADT ConnectionInner")
 
     # ---------------------------------------------------------------- S-NOCYCLE
@@ -315,6 +316,48 @@ def check_config(ctx, f, tag):
     for r, where in sorted(users.items()):
         ctx.ob("D-WHO", tag + "drop_event-user:" + r, r in DROP_EVENT_USERS,
                DROP_EVENT_USERS.get(r, "unexpected user of drop_event"), where)
+
+
+def check_inflight_strong(ctx, f, tag, S):
+    """W-INFLIGHT (added after seeded change C39): a method call that the dispatcher has handed to its own task is
+    in flight from the moment of the spawn; `graceful_shutdown` waits for the last strong handle, so that task must
+    own one from the start (captured), not obtain it by upgrading a weak handle on its first poll — otherwise a
+    shutdown that starts between the spawn and the first poll completes with the call unanswered."""
+    TRY = "zbus::object_server::ObjectServer::dispatch_method_call_try"
+    fam = [b for b in f.all_bodies("zbus") if b.root == TRY]
+    ctx.need(fam, "ObjectServer::dispatch_method_call_try")
+    n = 0
+    for b in fam:
+        for c in mir.calls(b):
+            if not (c.is_("spawn") and "Executor" in c.callee):
+                continue
+            # the spawned future: a coroutine aggregate reaching the call's arguments (possibly wrapped by .instrument())
+            cors = []
+            work, seen = [a for a in c.args], set()
+            while work:
+                op = work.pop()
+                o = mir.origin(b, op)
+                key = repr(o)[:160]
+                if key in seen:
+                    continue
+                seen.add(key)
+                if o[0] == "rv" and o[1][0] == "agg" and o[1][1] in ("coroutine", "closure"):
+                    cors.append(o[1])
+                elif o[0] == "call":
+                    work.extend(o[1].args)
+            for agg in cors:
+                n += 1
+                tys = []
+                for op in agg[4]:
+                    l = mir.op_local(op)
+                    if l is not None:
+                        tys.append(b.locals[l][0])
+                strong = [t for t in tys if S.holds(t) is not None]
+                ctx.ob("W-INFLIGHT", tag + "dispatch_method_call_try:spawned-handler-owns-connection", bool(strong),
+                       "the per-call handler task captures %s" % strong[0][:60] if strong else
+                       "the per-call handler task captures no strong connection handle (captures: %s): a dispatched call does not keep "
+                       "the connection alive until it is answered" % [t[:40] for t in tys], c.where)
+    ctx.floor("W-INFLIGHT", tag + "per-call handler tasks spawned by dispatch_method_call_try", n, 1)
 
 
 def run(ctx):
